@@ -5,6 +5,8 @@ import math
 import warnings
 from fractions import Fraction
 
+import sys
+
 import numpy as np
 
 from .. import common, gen_all, curves, fits
@@ -437,7 +439,7 @@ def check(run):
 def replay(rec):
     pl = rec.get("payload") or {}
     if pl.get("kind") != "curve":
-        return True
+        return common.replay_by_rerun(sys.modules[__name__], rec)
 
     class R:
         bad = False
@@ -457,4 +459,4 @@ def replay(rec):
             if name == pl["name"] and pl.get("state", "").startswith("fitted"):
                 oracle(R(), name, fitted(cols, k, **kw), pl["state"])
                 return not R.bad
-    return True
+    return common.replay_by_rerun(sys.modules[__name__], rec)
